@@ -307,13 +307,18 @@ impl Campaign for C05 {
                 ];
                 // one history in six opens with data pending at every tower and one slow tower coming back:
                 // the deep state (a retrier's request in flight) that later steps can then interfere with
-                (proptest::collection::vec(step, 2..10), 0u8..6, 0..towers, 1u8..=5).prop_map(move |(mut steps, opening, t, n)| {
+                (proptest::collection::vec(step, 2..10), 0u8..6, 0..towers, 1u8..=5, 0u8..4).prop_map(move |(mut steps, opening, t, n, then)| {
                     if opening == 0 {
                         let mut s: Vec<Step> = (0..towers).map(Step::Down).collect();
                         s.push(Step::Revoke(n));
                         s.push(Step::Slow(t, 10));
                         s.push(Step::Up(t));
-                        steps.truncate(6);
+                        match then {
+                            0 => s.push(Step::AbandonInFlight(t)),
+                            1 => s.push(Step::Kill),
+                            _ => {}
+                        }
+                        steps.truncate(5);
                         s.append(&mut steps);
                         steps = s;
                     }
